@@ -303,7 +303,7 @@ class VolumeMesh(Mesh):
                 if len(C)==4: # tetrahedra : every subset of 3 elements is a face
                     for i in range(4):
                         # By convention, ith adjacent face does not contain vertex i of the tet
-                        F = C[:i] + C[i+1:]
+                        F = [C[j] for j in range(4) if j!=i] # C may be a list, a tuple or a numpy row
                         iF = self.face_id(*F)
                         self._adjC2F[iC].append(iF)
                         self._adjF2C[iF].append(iC)                        
@@ -436,7 +436,7 @@ class VolumeMesh(Mesh):
         def in_cell_face_index(self,C,F):
             face_set = set(self.mesh.faces[F])
             for i,_ in enumerate(self.mesh.cells[C]):
-                cell_set_i = set(self.mesh.cells[C][:i] + self.mesh.cells[C][(i+1):])
+                cell_set_i = set(v for j,v in enumerate(self.mesh.cells[C]) if j!=i)
                 if face_set == cell_set_i:
                     return i
             return None
